@@ -1,11 +1,13 @@
 #!/bin/bash
 # Run every thorough tier once (with the libFuzzer stage); results and evidence go to $OUT.
-# usage: tools/thorough_all.sh [outdir]
+# usage: tools/thorough_all.sh [outdir [ID ...]]   (default: all 20)
 here="$(cd "$(dirname "$0")/.." && pwd)"
 OUT=${1:-/tmp/thorough-out}
 mkdir -p "$OUT"
 export VERIF_OUT_DIR="$OUT"
-for i in $(seq -f "C%02g" 1 20); do
+shift 2>/dev/null
+ids=("$@"); [ ${#ids[@]} -eq 0 ] && ids=($(seq -f "C%02g" 1 20))
+for i in "${ids[@]}"; do
     s=$(date +%s)
     "$here/vcheck" $i thorough > "$OUT/$i.log" 2>&1
     c=$?
